@@ -1,5 +1,8 @@
+import QuicModel.Drivers.DcReplay
+import QuicModel.Drivers.PacketNumber
+import QuicModel.Drivers.TxPn
 import QuicModel.Drivers.VarInt
 namespace Quic.Drivers
 def all : List Component :=
-  VarInt.components
+  DcReplay.components ++ PacketNumber.components ++ TxPn.components ++ VarInt.components
 end Quic.Drivers
